@@ -248,14 +248,21 @@ def pool(contract, seed=0, limit=4000):
         def elems():
             from statham.schema.elements import Array, Element, Object, String, AnyOf, Not
             from statham.schema.property import Property
+            yield from special()
             for mk in element_makers():
                 try:
                     yield mk()
                 except Exception:
                     continue
+
+        def special():
+            from statham.schema.elements import Array, Element, Object, String, AnyOf, Not
+            from statham.schema.property import Property
             inner = String()
             yield Array(inner, contains=Element(), additionalItems=False)
             yield Array([inner, Element()], additionalItems=String())
+            yield Array(inner, additionalItems=String())
+            yield Element(additionalItems=Element(minimum=1))
             yield Element(propertyNames=String(maxLength=3), additionalProperties=Array(inner), patternProperties={"^x": inner},
                           dependencies={"a": inner, "b": ["a"]}, properties={"a": Property(inner)})
             yield AnyOf(inner, Not(inner))
